@@ -53,12 +53,16 @@ def kv (ws : List String) (k : String) : Option String :=
 def fieldsOf (ws : List String) : List String :=
   ws.filter (fun w => ["st=", "name=", "pid=", "pg=", "mon=", "kids=", "link=", "sup=", "post="].any (w.startsWith ·))
 
-/-- a waiter returned on this line: the snapshot it sees must be that of a fully stopped actor -/
+/-- a waiter returned on this line: the snapshot it sees must be that of a fully stopped actor —
+`ExitRace.snapshotOk` (the predicate of `C06.waiter_returns_only_after_full_stop`) on the
+implementation's observation -/
 def returnOk (cause : String) (ws : List String) : Bool :=
-  kv ws "st" == some "6" && kv ws "name" == some "0" && kv ws "pid" == some "0" && kv ws "pg" == some "0"
-    && kv ws "mon" == some "0" && kv ws "kids" == some "0" && kv ws "link" == some "0"
-    && ((kv ws "sup").bind (·.toNat?)).getD 0 ≥ 2
-    && (!(cause == "stop" || cause == "drain") || kv ws "post" == some "1")
+  let is0 (k : String) : Bool := kv ws k == some "0"
+  let flags : Flags :=
+    { unregPid := is0 "pid", unregName := is0 "name", pgDemon := is0 "mon", pgLeft := is0 "pg",
+      postStop := kv ws "post" == some "1", terminated := is0 "kids",
+      supNotified := ((kv ws "sup").bind (·.toNat?)).getD 0 ≥ 2, unlinked := is0 "link" }
+  snapshotOk (((kv ws "st").bind (·.toNat?)).getD 0) flags (cause == "stop" || cause == "drain")
 
 def track (c : Case) (iw : List String) : Case × List String :=
   let st := ((kv iw "st").bind (·.toNat?)).getD 0
